@@ -1217,28 +1217,24 @@ func (t *ZeroAllocTokenizer) TokenizeOptimized() ([]Token, error) {
 		var endLength int
 
 		switch tagLoc.Type {
-		case TAG_VAR:
-			endTokenType = TOKEN_VAR_END
-			endLength = 2 // }}
-		case TAG_VAR_TRIM:
-			// Check if it ends with -}}
-			if tagEndPos > 0 && t.source[tagEndPos-1] == '-' {
+		case TAG_VAR, TAG_VAR_TRIM:
+			// Check if it ends with -}} (the dash must belong to the tag content,
+			// not to the opening delimiter)
+			if len(tagContent) > 0 && tagContent[len(tagContent)-1] == '-' {
 				endTokenType = TOKEN_VAR_END_TRIM
-				endLength = 3 // -}}
+				endLength = 2 // tagEndPos points at }}, the dash is part of the content
 				// Adjust tag content to remove the trailing dash
 				tagContent = tagContent[:len(tagContent)-1]
 			} else {
 				endTokenType = TOKEN_VAR_END
 				endLength = 2 // }}
 			}
-		case TAG_BLOCK:
-			endTokenType = TOKEN_BLOCK_END
-			endLength = 2 // %}
-		case TAG_BLOCK_TRIM:
-			// Check if it ends with -%}
-			if tagEndPos > 0 && t.source[tagEndPos-1] == '-' {
+		case TAG_BLOCK, TAG_BLOCK_TRIM:
+			// Check if it ends with -%} (the dash must belong to the tag content,
+			// not to the opening delimiter)
+			if len(tagContent) > 0 && tagContent[len(tagContent)-1] == '-' {
 				endTokenType = TOKEN_BLOCK_END_TRIM
-				endLength = 3 // -%}
+				endLength = 2 // tagEndPos points at %}, the dash is part of the content
 				// Adjust tag content to remove the trailing dash
 				tagContent = tagContent[:len(tagContent)-1]
 			} else {
